@@ -466,7 +466,18 @@ def replay_kl(model, params, clause, info):
     ref = torch.distributions.kl.kl_divergence(torch.distributions.MultivariateNormal(p.mean, p.covariance_matrix),
                                                torch.distributions.MultivariateNormal(q.mean, q.covariance_matrix))
     ok = torch.allclose(got, ref, atol=1e-8) and bool((same.abs() < 1e-8).all())
-    return {"violates": not ok, "detail": f"KL {got.tolist()} vs closed form {ref.tolist()}; KL(p||p) = {same.tolist()}",
+    # the same distributions with p's covariance REPRESENTED by a non-triangular root (R R^T = P): the value must not depend on the representation
+    from linear_operator.operators import RootLinearOperator
+    torch.manual_seed(11)
+    evals, evecs = torch.linalg.eigh(p.covariance_matrix)
+    Rsym = evecs @ torch.diag_embed(evals.clamp_min(0).sqrt()) @ evecs.transpose(-1, -2)  # symmetric square root: not triangular
+    p_root = gpytorch.distributions.MultivariateNormal(p.mean, RootLinearOperator(Rsym))
+    with gpytorch.settings.fast_computations(False, False, False):
+        got_root = torch.distributions.kl.kl_divergence(p_root, q)
+        same_root = torch.distributions.kl.kl_divergence(p_root, p_root)
+    ok_root = torch.allclose(got_root, ref, atol=1e-7) and bool((same_root.abs() < 1e-7).all())
+    ok = ok and ok_root
+    return {"violates": not ok, "detail": f"KL {got.tolist()} (dense p) / {got_root.tolist()} (root-represented p) vs closed form {ref.tolist()}; KL(p||p) = {same.tolist()} / {same_root.tolist()}",
             "entry": {"module": "contracts.C10_mvn", "function": "replay_kl", "args": [model, list(params), clause, info]}}
 
 
